@@ -18,13 +18,14 @@ MANIFEST = dict(
          "fragmentation (code units and surrogate pairs split anywhere; lone surrogates, odd tail -> U+FFFD) and is "
          "proved equal to a declarative specification (bytes -> code units -> scalar values -> UTF-8), so the bytes "
          "searched for UTF-16 input are proved to be its UTF-8 equivalent; the UTF-8 validator of -E utf-8 is "
-         "modelled and fragmentation independent. "
+         "modelled, fragmentation independent and proved equal to a declarative specification (Unicode table 3-7, "
+         "maximal-subpart replacement; well-formed input unchanged, output always well-formed). "
          "Tie to the code: the Coq decoder vs encoding_rs fed the same chunks; the bytes the real searcher "
          "sees (every strategy, fragmenting reader, roll-buffer capacities 1.., inputs beyond the 8 KiB "
          "transcoding buffer) vs the model and vs the reference transcoding computed with encoding_rs; rg "
          "stdout on encoded files vs on their transcodings (mmap, no mmap, stdin, -U).",
     note="PARTIAL: encoding_rs / encoding_rs_io are third-party and only modelled (UTF-16, UTF-8 validation: compared "
-         "on every run; the UTF-8 model is not proved against a declarative spec) or sampled (windows-1252, shift_jis); the reduction of 'same results' to 'same searched bytes' rests on "
+         "on every run and proved equal to declarative specifications) or sampled (windows-1252, shift_jis); the reduction of 'same results' to 'same searched bytes' rests on "
          "C02 (results independent of how bytes reach the searcher). Known findings: D14 (UTF-8 mark does not "
          "displace a label), a second mark after the mark is removed too, malformed UTF-8 after a UTF-8 mark is "
          "passed through unreplaced.",
